@@ -33,11 +33,16 @@ def run(ck):
     n = 150 if ck.tier == "quick" else 900
     for i in range(n):
         d = ck.rng.choice([0, 1, 1, 2, 2, 3, 4])
-        view = ck.rng.choice(["plain", "plain", "sliced", "indexed", "regular"]) if d >= 1 else "plain"
+        view = ck.rng.choice(["plain", "plain", "sliced", "indexed", "regular", "numpy"]) if d >= 1 else "plain"
         nested = gen_nested(ck.rng, d, top=ck.rng.choice([1, 2, 3, 4]))
         if view == "regular":   # every top-level list has the same length w (then converted with ak.to_regular)
             w = ck.rng.choice([1, 2, 3])
             nested = [gen_nested(ck.rng, d - 1, top=w) if d > 1 else [ck.rng.randrange(100) for _ in range(w)] for _ in range(len(nested))]
+        if view == "numpy":     # uniform at every level: one n-dimensional NumPy buffer (ak.Array(np.ndarray))
+            shape = [ck.rng.choice([1, 2, 3]) for _ in range(d + 1)]
+            def uni(k):
+                return [uni(k + 1) for _ in range(shape[k])] if k < d else [ck.rng.randrange(100) for _ in range(shape[k])]
+            nested = uni(0)
         c = {"nested": nested, "depth": d, "view": view}
         if view == "sliced":
             c["prefix"] = gen_nested(ck.rng, d, top=2)
